@@ -237,6 +237,20 @@ class Scanner:
         self._body(self.func.node.body, self.env, self.func, 0)
         # second pass so that loop-carried bindings are visible
         self._body(self.func.node.body, self.env, self.func, 0)
+        # a nested function that is handed on as a value (a callback given to a user function,
+        # say) runs with the closure's bindings and unknown arguments: its body is part of
+        # what the function does
+        for name, nf in sorted(getattr(self.func, "nested", {}).items()):
+            escapes = any(isinstance(x, ast.Name) and x.id == name and isinstance(x.ctx, ast.Load)
+                          and not any(isinstance(c_, ast.Call) and c_.func is x
+                                      for c_ in ast.walk(self.func.node))
+                          for x in ast.walk(self.func.node))
+            if escapes and not isinstance(nf.node, ast.Lambda):
+                sub = self.env.child()
+                for p_ in nf.params:
+                    sub.vars[p_] = None
+                self._body(nf.node.body, sub, nf, 1)
+                self._body(nf.node.body, sub, nf, 1)
         return self.env
 
     def _body(self, stmts, env, func, depth):
